@@ -263,7 +263,8 @@ func checkWrapper(p *an.Prog, r *an.Run, w *ssa.Function) {
 			if !ok || len(ret.Results) == 0 {
 				continue
 			}
-			res := ret.Results[len(ret.Results)-1]
+			rr := an.RetResults(ret)
+			res := rr[len(rr)-1]
 			if !definitelyNonNilError(res) {
 				bad = append(bad, "a return at "+p.Pos(ret.Pos())+" may yield nil without a successful request.Verify")
 			}
@@ -475,7 +476,7 @@ func checkVerifyMethod(p *an.Prog, r *an.Run, typ string, v, h *ssa.Function) {
 		if !ok || len(ret.Results) != 1 {
 			return
 		}
-		res := ret.Results[0]
+		res := an.RetResults(ret)[0]
 		if definitelyNonNilError(res) || returnOnFailEdge(ret, res) {
 			return
 		}
